@@ -135,6 +135,16 @@ pub const ILL_TYPED_TEXTS: &[(&str, &str)] = &[
     ("constant of a tuple type", "const C: (u8, bool) = A::B;\npub fn main(x: u8) -> u8 {\n  x + C.0\n}\n"),
     ("constant of an array type", "const C: [u8; 2] = A::B;\npub fn main(x: u8) -> u8 {\n  x + C[0]\n}\n"),
     ("constant of an unknown type", "const C: Nope = A::B;\npub fn main(x: u8) -> u8 {\n  x\n}\n"),
+    ("struct definition names a field twice", "struct S { a: u8, a: u16 }\npub fn main(x: u8) -> u8 {\n  x\n}\n"),
+    ("struct definition names a field twice, used", "struct S { a: u8, b: bool, a: bool }\npub fn main(x: u8) -> bool {\n  let s = S { a: true, b: false };\n  s.a\n}\n"),
+    ("enum definition names a variant twice", "enum E { A, A(u8), B }\npub fn main(x: u8) -> u8 {\n  x\n}\n"),
+    ("enum definition names a variant twice, matched", "enum E { A(u8), B, A(u16, u16) }\npub fn main(e: E, x: u8) -> u8 {\n  match e {\n    E::A(y) => y,\n    E::B => x,\n  }\n}\n"),
+    ("one external value with two types", "const A: i8 = P::X;\nconst B: u8 = P::X;\npub fn main(x: i8) -> i8 {\n  x + A\n}\n"),
+    ("one external value as bool and as number", "const A: bool = P::X;\nconst B: u8 = P::X;\npub fn main(x: u8) -> u8 {\n  if A { x } else { B }\n}\n"),
+    ("range past the maximum of its suffix", "pub fn main(a: u16) -> u16 {\n  let mut s = a;\n  for i in 250u8..260 {\n    s = s + (i as u16);\n  }\n  s\n}\n"),
+    ("range past the maximum of the element type", "pub fn main(a: u8) -> [u8; 3] {\n  254..257\n}\n"),
+    ("range past the maximum of a signed element type", "pub fn main(a: u8) -> [i8; 3] {\n  126..129\n}\n"),
+    ("annotated range past the maximum", "pub fn main(a: u8) -> u8 {\n  let r: [u8; 2] = 255..257;\n  r[0] + a\n}\n"),
     ("enum pattern arity", "enum E { A, B(u8) }\npub fn main(e: E, x: u8) -> u8 {\n  match e {\n    E::A => x,\n    E::B(a, b) => a,\n  }\n}\n"),
     ("enum pattern of another enum", "enum E { A, B(u8) }\nenum F { A, B(u8) }\npub fn main(e: E, x: u8) -> u8 {\n  match e {\n    F::A => x,\n    F::B(a) => a,\n  }\n}\n"),
     ("struct pattern of another struct", "struct S { a: u8 }\nstruct T { a: u8 }\npub fn main(s: S, x: u8) -> u8 {\n  let T { a } = s;\n  a + x\n}\n"),
